@@ -9,6 +9,7 @@ import (
 
 	sdk "github.com/cosmos/cosmos-sdk/types"
 	authtypes "github.com/cosmos/cosmos-sdk/x/auth/types"
+	"github.com/cosmos/cosmos-sdk/x/authz"
 
 	pfmtypes "github.com/cosmos/ibc-go/v11/modules/apps/packet-forward-middleware/types"
 	transfertypes "github.com/cosmos/ibc-go/v11/modules/apps/transfer/types"
@@ -17,9 +18,9 @@ import (
 )
 
 type Profile struct {
-	Send, Forward, Recv, Ack, Timeout, Dup, HostileSend, ToggleRecv, Commit int
-	SoonPct, BadReceiverPct                                                 int
-	MaxDepth                                                                int
+	Send, Forward, Recv, Ack, Timeout, Dup, HostileSend, ToggleRecv, Commit, Grant, Exec int
+	SoonPct, BadReceiverPct                                                              int
+	MaxDepth                                                                             int
 }
 
 func DefaultProfile() Profile {
@@ -168,6 +169,10 @@ func (s *Sim) opForward(pr Profile) string {
 		cur = l.Ends[1-sd].Chain
 		route += fmt.Sprint("→", cur)
 		fm.Receiver = "pfm-intermediate" // overwritten below for the last hop
+		if s.R.Bool() {
+			// some integrators put a real address of the next chain here; it must never end up holding the funds
+			fm.Receiver = s.Ch[cur].Addr(s.R.Intn(5)).String()
+		}
 		hops = append(hops, fm)
 		arrival = l
 	}
@@ -195,7 +200,9 @@ func (s *Sim) opForward(pr Profile) string {
 	if o == nil || !o.OK() || len(s.Pkts) == before {
 		return "forward-rej"
 	}
-	s.Routes = append(s.Routes, s.Pkts[len(s.Pkts)-1])
+	root := s.Pkts[len(s.Pkts)-1]
+	root.WantFinal, root.WantHops = final, len(hops)
+	s.Routes = append(s.Routes, root)
 	s.C.Inc("routes_started")
 	cls := fmt.Sprintf("forward-d%d", len(hops))
 	if bad {
@@ -298,6 +305,8 @@ func (s *Sim) Step(pr Profile) string {
 			s.Ch[s.R.Intn(len(s.Ch))].Commit()
 			return "commit"
 		}},
+		{pr.Grant, func() string { return s.opGrant() }},
+		{pr.Exec, func() string { return s.opExec() }},
 	}
 	total := 0
 	for _, o := range ops {
@@ -317,6 +326,85 @@ func (s *Sim) Step(pr Profile) string {
 		x -= o.w
 	}
 	return ""
+}
+
+// opGrant: an account authorises another one to transfer on its behalf (generic or ICS-20 transfer authorization), or revokes it.
+func (s *Sim) opGrant() string {
+	chain := s.R.Intn(len(s.Ch))
+	ch := s.Ch[chain]
+	granter, grantee := s.R.Intn(5), 5+s.R.Intn(5)
+	key := fmt.Sprintf("%d|%d|%d", chain, granter, grantee)
+	if s.grants[key] && s.R.Bool() {
+		msg := authz.NewMsgRevoke(ch.Addr(granter), ch.Addr(grantee), sdk.MsgTypeURL(&transfertypes.MsgTransfer{}))
+		o := ch.Deliver(ch.Acct(granter), &msg)
+		if o.OK() {
+			delete(s.grants, key)
+		}
+		return "revoke-" + okS(o)
+	}
+	var a authz.Authorization = authz.NewGenericAuthorization(sdk.MsgTypeURL(&transfertypes.MsgTransfer{}))
+	kind := "generic"
+	if s.R.Bool() {
+		lanes := s.lanesFrom(chain, "v1")
+		if len(lanes) > 0 {
+			l := lanes[s.R.Intn(len(lanes))]
+			a = transfertypes.NewTransferAuthorization(transfertypes.Allocation{SourcePort: port, SourceChannel: l.Ends[l.side(chain)].ID,
+				SpendLimit: sdk.NewCoins(sdk.NewCoin(sdk.DefaultBondDenom, sdkmath.NewInt(1000000))), AllowedPacketData: []string{"*"}})
+			kind = "transfer-authorization"
+		}
+	}
+	exp := s.W.Coord.CurrentTime.Add(1000 * time.Hour)
+	msg, err := authz.NewMsgGrant(ch.Addr(granter), ch.Addr(grantee), a, &exp)
+	if err != nil {
+		return ""
+	}
+	o := ch.Deliver(ch.Acct(granter), msg)
+	if o.OK() {
+		s.grants[key] = true
+		s.C.Inc("grants")
+	}
+	return "grant-" + kind + "-" + okS(o)
+}
+
+// opExec: a grantee (or a stranger without any grant) executes a transfer out of somebody else's account through authz.
+func (s *Sim) opExec() string {
+	l := s.Lanes[s.R.Intn(len(s.Lanes))]
+	if l.Kind != "v1" {
+		return ""
+	}
+	side := s.R.Intn(2)
+	chain, dst := l.Ends[side].Chain, l.Ends[1-side].Chain
+	ch := s.Ch[chain]
+	victim, actor := s.R.Intn(5), 5+s.R.Intn(5)
+	if s.R.Bool() {
+		// prefer a pair with a live grant on this chain, if there is one
+		for _, k := range sortedKeys(s.grants) {
+			var c0, g0, e0 int
+			if _, err := fmt.Sscanf(k, "%d|%d|%d", &c0, &g0, &e0); err == nil && c0 == chain {
+				victim, actor = g0, e0
+				break
+			}
+		}
+	}
+	key := fmt.Sprintf("%d|%d|%d", chain, victim, actor)
+	th, tt := s.timeoutFor(l, side, false)
+	inner := transfertypes.NewMsgTransfer(port, l.Ends[side].ID, sdk.NewCoin(sdk.DefaultBondDenom, sdkmath.NewInt(int64(1+s.R.Intn(40)))), ch.Addr(victim).String(), s.Ch[dst].Addr(actor).String(), th, tt, "")
+	msg := authz.NewMsgExec(ch.Addr(actor), []sdk.Msg{inner})
+	s.curKind = "send"
+	o := ch.Deliver(ch.Acct(actor), &msg)
+	s.curKind = ""
+	s.C.Inc("authz_execs")
+	cls := "exec-without-grant"
+	if s.grants[key] {
+		cls = "exec-with-grant"
+	}
+	if o.OK() {
+		s.C.Inc(cls + "_accepted")
+	} else {
+		s.C.Inc(cls + "_rejected")
+	}
+	s.log("%s acct%d from acct%d on chain%d ok=%v %s", cls, actor, victim, chain, o.OK(), clip(o.Log, 100))
+	return cls + "-" + okS(o)
 }
 
 func okS(o *kit.Outcome) string {
@@ -414,8 +502,14 @@ func (s *Sim) EndChecks() {
 		walk(root, 0)
 		// all-or-nothing: the root's outcome must agree with the fate of the last attempted hop chain
 		last := root
+		depth := 0
 		for len(last.Kids) > 0 {
 			last = last.Kids[len(last.Kids)-1]
+			depth++
+		}
+		if root.Terminal == "ack-ok" && (depth != root.WantHops || last.Receiver != root.WantFinal) {
+			s.viol("C43", "route-acknowledged-but-final-receiver-not-reached", "route %v acknowledged as success after %d of %d forward hops; last hop credited %s, the memo names %s", root, depth, root.WantHops, shortAddr(last.Receiver), shortAddr(root.WantFinal))
+			continue
 		}
 		delivered := last.Terminal == "ack-ok" && last.RecvResult == "success"
 		if last == root {
